@@ -25,10 +25,10 @@ use crate::psk::{ExternalPskId, JustPreSharedKeyID, PskGroupId, PskNonce, Resump
 
 crate::c13_ghost_support!();
 
-fn any_id() -> PreSharedKeyID {
-    let key_id = if kani::any() {
-        JustPreSharedKeyID::External(ExternalPskId::new(any_bytes::<2>()))
-    } else {
+/// PreSharedKeyID of the given type with the given id (external: psk_id, resumption:
+/// psk_group_id) and nonce; usage and epoch of a resumption id are symbolic
+fn make_id(resumption: bool, id: &[u8], nonce: &[u8]) -> PreSharedKeyID {
+    let key_id = if resumption {
         let u: u8 = kani::any();
         kani::assume(u < 3);
         let usage = match u {
@@ -38,15 +38,29 @@ fn any_id() -> PreSharedKeyID {
         };
         JustPreSharedKeyID::Resumption(ResumptionPsk {
             usage,
-            psk_group_id: PskGroupId(any_bytes::<2>()),
+            psk_group_id: PskGroupId(id.to_vec()),
             psk_epoch: kani::any(),
         })
+    } else {
+        JustPreSharedKeyID::External(ExternalPskId::new(id.to_vec()))
     };
-    PreSharedKeyID { key_id, psk_nonce: PskNonce(any_bytes::<2>()) }
+    PreSharedKeyID { key_id, psk_nonce: PskNonce(nonce.to_vec()) }
 }
 
-fn any_input() -> PskSecretInput {
-    PskSecretInput { id: any_id(), psk: PreSharedKey::new(any_bytes::<2>()) }
+/// symbolic PSK with a 1-byte id and a 1-byte nonce, value of 0..=2 bytes
+fn small_input(resumption: bool) -> PskSecretInput {
+    let id: [u8; 1] = kani::any();
+    let nonce: [u8; 1] = kani::any();
+    PskSecretInput { id: make_id(resumption, &id, &nonce), psk: PreSharedKey::new(any_bytes::<2>()) }
+}
+
+/// run `f` for both PSK types
+fn for_each_type(mut f: impl FnMut(bool)) {
+    if kani::any() {
+        f(false)
+    } else {
+        f(true)
+    }
 }
 
 fn rfc_psk_label(id: &PreSharedKeyID, index: u16, count: u16) -> Vec<u8> {
@@ -107,58 +121,77 @@ fn c13_psk_secret_0() {
     assert!(is_out(&PskSecret::new(&p), 0, NH));
 }
 
+// one PSK: both types, id / group id and nonce of every length 0..=2, value of length 0..=2
 #[kani::proof]
 #[kani::stub(zeroize::optimization_barrier, noop_barrier)]
 #[kani::unwind(12)]
 fn c13_psk_secret_1_bounded_2() {
-    let p = GhostProvider::new();
-    let a = any_input();
-    let input = [a.clone()];
-    let r = PskSecret::calculate(&input, &p);
-    assert!(r.is_ok());
-    let s = r.ok().unwrap();
-    kani::cover!(matches!(a.id.key_id, JustPreSharedKeyID::External(_)));
-    kani::cover!(matches!(a.id.key_id, JustPreSharedKeyID::Resumption(_)));
-    assert!(p.calls() == 3);
-    check_step(&p, 0, 1, &a, &[0u8; NH]);
-    assert!(is_out(&s, 3, NH));
+    let i: [u8; 2] = kani::any();
+    let n: [u8; 2] = kani::any();
+    let value = any_bytes::<2>();
+    for_each_type(|resumption| {
+        for_each_prefix(&i, |id| {
+            for_each_prefix(&n, |nonce| {
+                let p = GhostProvider::new();
+                let a = PskSecretInput {
+                    id: make_id(resumption, id, nonce),
+                    psk: PreSharedKey::new(value.clone()),
+                };
+                let input = [a.clone()];
+                let r = PskSecret::calculate(&input, &p);
+                assert!(r.is_ok());
+                let s = r.ok().unwrap();
+                kani::cover!(resumption && id.len() == 2 && nonce.len() == 2);
+                kani::cover!(!resumption && id.is_empty() && nonce.is_empty());
+                assert!(p.calls() == 3);
+                check_step(&p, 0, 1, &a, &[0u8; NH]);
+                assert!(is_out(&s, 3, NH));
+                core::mem::forget((input, a));
+            })
+        })
+    });
 }
 
+// two PSKs, every combination of types; ids and nonces of 1 byte, values of 0..=2 bytes
 #[kani::proof]
 #[kani::stub(zeroize::optimization_barrier, noop_barrier)]
 #[kani::unwind(12)]
-fn c13_psk_secret_2_bounded_2() {
-    let p = GhostProvider::new();
-    let a = any_input();
-    let b = any_input();
-    let input = [a.clone(), b.clone()];
-    let r = PskSecret::calculate(&input, &p);
-    assert!(r.is_ok());
-    let s = r.ok().unwrap();
-    kani::cover!(
-        matches!(a.id.key_id, JustPreSharedKeyID::External(_))
-            && matches!(b.id.key_id, JustPreSharedKeyID::Resumption(_))
-    );
-    assert!(p.calls() == 6);
-    check_step(&p, 0, 2, &a, &[0u8; NH]);
-    check_step(&p, 1, 2, &b, &out(3, NH));
-    assert!(is_out(&s, 6, NH));
+fn c13_psk_secret_2_bounded_1() {
+    for_each_type(|ra| {
+        for_each_type(|rb| {
+            let p = GhostProvider::new();
+            let a = small_input(ra);
+            let b = small_input(rb);
+            let input = [a.clone(), b.clone()];
+            let r = PskSecret::calculate(&input, &p);
+            assert!(r.is_ok());
+            let s = r.ok().unwrap();
+            kani::cover!(!ra && rb);
+            kani::cover!(ra && !rb);
+            assert!(p.calls() == 6);
+            check_step(&p, 0, 2, &a, &[0u8; NH]);
+            check_step(&p, 1, 2, &b, &out(3, NH));
+            assert!(is_out(&s, 6, NH));
+            core::mem::forget((input, a, b));
+        })
+    });
 }
 
 // a provider failure at any step is reported as CryptoProviderError and stops the chain
 #[kani::proof]
 #[kani::stub(zeroize::optimization_barrier, noop_barrier)]
 #[kani::unwind(12)]
-fn c13_psk_secret_provider_error_bounded_2() {
+fn c13_psk_secret_provider_error() {
     let at: usize = kani::any();
     kani::assume(at < 6);
     let p = GhostProvider::failing_at(at);
-    let input = [any_input(), any_input()];
+    let input = [small_input(false), small_input(true)];
     let r = PskSecret::calculate(&input, &p);
     kani::cover!(at == 5);
+    kani::cover!(at == 0);
     assert!(is_provider_error(&r));
     assert!(p.calls() == at + 1);
-    core::mem::forget(r);
+    core::mem::forget((r, input));
 }
 
 // ------------------------------------------------------------------ C18
@@ -168,42 +201,66 @@ fn c13_psk_secret_provider_error_bounded_2() {
 #[kani::proof]
 #[kani::stub(zeroize::optimization_barrier, noop_barrier)]
 #[kani::unwind(12)]
-fn c18_psk_order_bounded_2() {
-    let a = any_input();
-    let b = any_input();
-    let p = GhostProvider::new();
-    let q = GhostProvider::new();
-    let r1 = PskSecret::calculate(&[a.clone(), b.clone()], &p);
-    let r2 = PskSecret::calculate(&[b.clone(), a.clone()], &q);
-    assert!(r1.is_ok() && r2.is_ok());
-    let same = p.same_trace(&q);
-    kani::cover!(same);
-    kani::cover!(!same);
-    if same {
-        assert!(a.id == b.id);
-        assert!(bytes_eq(a.psk.raw_value(), b.psk.raw_value()));
-    }
+fn c18_psk_order_bounded_1() {
+    for_each_type(|ra| {
+        for_each_type(|rb| {
+            let a = small_input(ra);
+            let b = small_input(rb);
+            let p = GhostProvider::new();
+            let q = GhostProvider::new();
+            let ab = [a.clone(), b.clone()];
+            let ba = [b.clone(), a.clone()];
+            let r1 = PskSecret::calculate(&ab, &p);
+            let r2 = PskSecret::calculate(&ba, &q);
+            assert!(r1.is_ok() && r2.is_ok());
+            let same = p.same_trace(&q);
+            kani::cover!(same);
+            kani::cover!(!same);
+            if same {
+                assert!(a.id == b.id);
+                assert!(bytes_eq(a.psk.raw_value(), b.psk.raw_value()));
+            }
+            core::mem::forget((r1, r2, ab, ba, a, b));
+        })
+    });
 }
 
-// Value, id, nonce, index, count: the real encoder of the PSKLabel that enters the chain is
-// injective, i.e. two labels with the same bytes have the same id (type, id / usage, group,
-// epoch, nonce), index and count.
+// Id, nonce, index, count: the real encoder of the PSKLabel that enters the chain is the RFC
+// encoding and is injective: two labels with the same bytes have the same id (type, id /
+// usage, group, epoch, nonce), index and count.  Ids and nonces of every length 0..=1.
 #[kani::proof]
-#[kani::stub(zeroize::optimization_barrier, noop_barrier)]
 #[kani::unwind(12)]
-fn c18_psk_label_injective_bounded_2() {
-    let (ia, ib) = (any_id(), any_id());
+fn c18_psk_label_injective_bounded_1() {
+    let b1: [u8; 1] = kani::any();
+    let b2: [u8; 1] = kani::any();
+    let b3: [u8; 1] = kani::any();
+    let b4: [u8; 1] = kani::any();
     let (xa, xb): (u16, u16) = (kani::any(), kani::any());
     let (ca, cb): (u16, u16) = (kani::any(), kani::any());
-    let la = PSKLabel { id: &ia, index: xa, count: ca }.mls_encode_to_vec();
-    let lb = PSKLabel { id: &ib, index: xb, count: cb }.mls_encode_to_vec();
-    assert!(la.is_ok() && lb.is_ok());
-    let (la, lb) = (la.ok().unwrap(), lb.ok().unwrap());
-    // the real encoding is the RFC encoding
-    assert!(bytes_eq(&la, &rfc_psk_label(&ia, xa, ca)));
-    let same = bytes_eq(&la, &lb);
-    kani::cover!(same);
-    if same {
-        assert!(ia == ib && xa == xb && ca == cb);
-    }
+    for_each_type(|ra| {
+        for_each_type(|rb| {
+            for_each_prefix(&b1, |id_a| {
+                for_each_prefix(&b2, |nonce_a| {
+                    for_each_prefix(&b3, |id_b| {
+                        for_each_prefix(&b4, |nonce_b| {
+                            let ia = make_id(ra, id_a, nonce_a);
+                            let ib = make_id(rb, id_b, nonce_b);
+                            let la = PSKLabel { id: &ia, index: xa, count: ca }.mls_encode_to_vec();
+                            let lb = PSKLabel { id: &ib, index: xb, count: cb }.mls_encode_to_vec();
+                            assert!(la.is_ok() && lb.is_ok());
+                            let (la, lb) = (la.ok().unwrap(), lb.ok().unwrap());
+                            assert!(bytes_eq(&la, &rfc_psk_label(&ia, xa, ca)));
+                            let same = bytes_eq(&la, &lb);
+                            kani::cover!(same);
+                            kani::cover!(!same && ra != rb);
+                            if same {
+                                assert!(ia == ib && xa == xb && ca == cb);
+                            }
+                            core::mem::forget((ia, ib));
+                        })
+                    })
+                })
+            })
+        })
+    });
 }
